@@ -223,7 +223,7 @@ def run(tier, seed):
                                          ('grid', 'NoData'), ('alias', 'NoData'),
                                          ('blankin', 'NoData'), ('trimex', 'NoData'),
                                          ('cse', 'NoData')]):
-            jobs.append((name, src, ('yml', 'json', 'pkl')[i % 3], 12, seed + i))
+            jobs.append((name, src, ('yml', 'json', 'pkl')[i % 3], 7, seed + i))
     else:
         k = 0
         for name in ('trimex', 'nested', 'range', 'grid', 'alias', 'chain', 'cse', 'blankin'):
